@@ -270,6 +270,7 @@ func checkC13(w *World, r *Run) {
 		ok, why := enabledBranchInserts(fn, name == "PutObject")
 		r.Check(ok, ruleIns, "(*sqlMetadataStore)."+name+" Enabled branch", fn.Pos(), "VersionID := NewRandomUploadId(); insert", why)
 	}
+	checkC13ReplacedRowIsTheNullVersion(w, r)
 	r.NotCovered("content/size/ETag immutability below the metadata store (part rows are keyed by object row id; covered only through the row-update rule); versioning-state changes")
 	_ = types.Universe
 	_ = sort.Strings
